@@ -5,5 +5,5 @@ CONSTANTS
   AlphaSel = {1, 2, 3, 4, 5, 6}
 INIT EInit
 NEXT ENext
-INVARIANT Theorems
+INVARIANT TheoremsWitness
 CHECK_DEADLOCK FALSE
